@@ -413,6 +413,45 @@ func rejectionWhileOpenProbe(c *Ctx) {
 	}
 }
 
+// sharedOptionTwiceProbe: one WithInterceptors(nil, A, B) value applied to two handlers (what a
+// generated service constructor does with its options, once per procedure): on both, every
+// accepted request runs A and B once each (round 10, C12-mm).
+func sharedOptionTwiceProbe(c *Ctx) {
+	for _, kind := range []string{"unary", "server"} {
+		a, b := &specIcpt{}, &specIcpt{}
+		opt := connect.WithInterceptors(nil, a, b)
+		mk := func(procedure string) *connect.Handler {
+			if kind == "unary" {
+				return connect.NewUnaryHandler(procedure, func(ctx context.Context, r *connect.Request[[]byte]) (*connect.Response[[]byte], error) {
+					return connect.NewResponse(&[]byte{1}), nil
+				}, connect.WithCodec(rawCodec{"raw"}), opt)
+			}
+			return connect.NewServerStreamHandler(procedure, func(ctx context.Context, r *connect.Request[[]byte], s *connect.ServerStream[[]byte]) error {
+				return nil
+			}, connect.WithCodec(rawCodec{"raw"}), opt)
+		}
+		first, second, third := mk("/acme.v1.Svc/One"), mk("/acme.v1.Svc/Two"), mk("/acme.v1.Svc/Three")
+		var got []string
+		for i, h := range []*connect.Handler{first, second, third} {
+			a.count, b.count = 0, 0
+			body := []byte{1}
+			ct := "application/raw"
+			if kind != "unary" {
+				body, ct = frame(0, body), "application/connect+raw"
+			}
+			req := httptest.NewRequest(http.MethodPost, "/x", bytes.NewReader(body))
+			req.ProtoMajor, req.ProtoMinor, req.Proto = 2, 0, "HTTP/2.0"
+			req.Header.Set("Content-Type", ct)
+			h.ServeHTTP(httptest.NewRecorder(), req)
+			got = append(got, fmt.Sprintf("handler%d: A=%d B=%d", i+1, a.count, b.count))
+		}
+		c.Count("shared-option-twice")
+		if s := strings.Join(got, ", "); s != "handler1: A=1 B=1, handler2: A=1 B=1, handler3: A=1 B=1" {
+			c.Fail("disp-once", "one WithInterceptors(nil, A, B) option value used to build three "+kind+" handlers; one request to each", s, "interceptors run exactly once per accepted request on every handler")
+		}
+	}
+}
+
 func streamDisp(c *Ctx) {
 	if replayOp != "" {
 		if strings.HasPrefix(replayOp, "disp") {
@@ -425,6 +464,7 @@ func streamDisp(c *Ctx) {
 	specReuseProbe(c)
 	recoverSpecProbe(c)
 	rejectionWhileOpenProbe(c)
+	sharedOptionTwiceProbe(c)
 	doneContextChainProbe(c, "disp-once")
 	r := c.Rng
 	kinds := []string{"unary", "client", "server", "bidi"}
